@@ -134,19 +134,7 @@ class Context:
             return ops[expr.op](a, b)
         elif isinstance(expr, ast.TypeCast):
             a = self.eval_const(expr.a)
-            to_type = self.get_type(expr.to_type)
-            if self.equal_types("int", expr.to_type):
-                return int(a)
-            elif self.equal_types("byte", expr.to_type):
-                return int(a) & 0xFF
-            elif isinstance(to_type, ast.FloatType):
-                return float(a)
-            elif isinstance(to_type, ast.PointerType):
-                return int(a)
-            else:  # pragma: no cover
-                raise NotImplementedError(
-                    f"Casting to {expr.to_type} not implemented"
-                )
+            return self._fit(a, expr.to_type, expr.loc)
         elif isinstance(expr, ast.Identifier):
             target = self.resolve_symbol(expr)
             if isinstance(target, ast.Constant):
@@ -155,6 +143,36 @@ class Context:
                 raise SemanticError(f"Cannot evaluate {expr}", None)
         else:
             raise SemanticError(f"Cannot evaluate constant {expr}", None)
+
+    def _fit(self, value, typ, loc=None):
+        """Reduce a constant value to the range of the given type.
+
+        This is what a conversion to this type does at run time:
+        integers wrap around in the number of bits of the type.
+        """
+        typ = self.get_type(typ)
+        if isinstance(typ, ast.PointerType):
+            bits, signed = self.pointerSize * 8, False
+        elif isinstance(typ, ast.IntegerType):
+            bits, signed = typ.bits, isinstance(typ, ast.SignedIntegerType)
+        elif isinstance(typ, ast.FloatType):
+            if not isinstance(value, (int, float)):
+                raise SemanticError(f"Cannot convert {value!r} to {typ}", loc)
+            return float(value)
+        else:
+            return value
+
+        if isinstance(value, str) and isinstance(typ, ast.PointerType):
+            # The address of string data, only known at link time.
+            return value
+        if not isinstance(value, (int, float)) or (
+            isinstance(value, float) and not math.isfinite(value)
+        ):
+            raise SemanticError(f"Cannot convert {value!r} to {typ}", loc)
+        value = int(value) & ((1 << bits) - 1)
+        if signed and value >> (bits - 1):
+            value -= 1 << bits
+        return value
 
     def pack_string(self, txt):
         """Pack a string an int as length followed by text data"""
